@@ -36,6 +36,10 @@ func genC03(p *Plan, r *RNG) {
 	}
 	p.Cfg.AllocLifeS = r.PickInt([]int{0, 3600, 7200})
 	p.Cfg.PermTimeoutS = r.PickInt([]int{0, 4000})
+	lookalike := r.Chance(1, 3)
+	if lookalike {
+		p.Cfg.Users = append(p.Cfg.Users, User{"U1", "pw-ONE"}, User{"U2", "pw-TWO"})
+	}
 	addClients(p, r, 2)
 	p.Clients[0].User, p.Clients[0].Pass = "u1", "pw-one"
 	p.Clients[1].User, p.Clients[1].Pass = "u2", "pw-two"
@@ -73,6 +77,13 @@ func genC03(p *Plan, r *RNG) {
 			user = "u2" // another user's perfectly valid credentials on this 5-tuple
 			if c == "c2" {
 				user = "u1"
+			}
+			if lookalike && r.Chance(1, 2) {
+				// an account of its own whose name differs from the owner's only in case
+				user = "U2"
+				if c == "c1" {
+					user = "U1"
+				}
 			}
 		}
 		a := OpArgs{Cred: cred, User: user}
